@@ -118,6 +118,19 @@ Definition holds_request (s : wscen) (tr : list wev) : bool :=
 
 Definition check_web (c : wscen * list wev) : list nat * bool * nat :=
   let '(s, tr) := c in ([if leqb wev_eqb (mw_trace s) tr then 0 else 1], holds_request s tr, 0).
+(* the same request with the integration's DEFAULT error handler (not instrumented): the user error handler's event
+   is absent from the observation; everything else - middlewares, handler, close - must be as in the model *)
+Definition not_errh (e : wev) : bool := match e with WErrHandler => false | _ => true end.
+Definition holds_request_default (s : wscen) (tr : list wev) : bool :=
+  let created := match w_exit s with XCreateFail => false | _ => true end in
+  (count_w WClosed tr =? (if created then 1 else 0)) && (count_w WForeignScope tr =? 0) &&
+  match w_exit s with
+  | XCreateFail => leqb wev_eqb tr []
+  | XMwErr i => (count_w WHandler tr =? 0) && (count_w (WMw (S i)) tr =? 0)
+  | _ => count_w WHandler tr =? 1
+  end.
+Definition check_web_default (c : wscen * list wev) : list nat * bool * nat :=
+  let '(s, tr) := c in ([if leqb wev_eqb (filter not_errh (mw_trace s)) tr then 0 else 1], holds_request_default s tr, 0).
 Definition check_handle (c : hscen * list hev) : list nat * bool * nat :=
   let '(s, tr) := c in ([if leqb hev_eqb (handle_trace s) tr then 0 else 1], true, 0).
 (* a batch of concurrent requests: scope identities pairwise distinct, each closed exactly once *)
